@@ -41,6 +41,9 @@ pub struct PropDef {
     pub flavours: &'static [&'static str],
     /// canonical outcome record of a run (compared across flavours and schedules by the driver)
     pub outcome: Option<fn(&View) -> String>,
+    /// thorough tier: half of the runs draw their scenarios from these other properties'
+    /// profiles and are judged by this property's oracle (the oracle is written to be sound on them)
+    pub extra_profiles: &'static [&'static str],
 }
 
 pub fn all() -> Vec<PropDef> {
